@@ -368,6 +368,7 @@ def D(t, x, memo=None, dmemo=None):
         else: r = (D(t.a[0], x, memo, dmemo) * t.a[1] - t.a[0] * D(t.a[1], x, memo, dmemo)) / (t.a[1] * t.a[1])
     elif o == 'exp': r = t * D(t.a[0], x, memo, dmemo)
     elif o == 'log': r = D(t.a[0], x, memo, dmemo) / t.a[0]
+    elif o == 'ite': r = ite(t.a[0], D(t.a[1], x, memo, dmemo), D(t.a[2], x, memo, dmemo))      # piecewise (away from the switching surface)
     else: raise ValueError("cannot differentiate through %s" % o)
     memo[t.id] = r
     return r
